@@ -248,6 +248,12 @@ func (o *oracle) poll() {
 				}
 			}
 			o.checkCertificate(n, h, id)
+			if !s.rc.Failed() {
+				o.checkChainLink(n, h, blk)
+			}
+			if !s.rc.Failed() {
+				o.checkLocalCertificate(n, h, id)
+			}
 			if s.rc.Failed() {
 				return
 			}
